@@ -1,6 +1,7 @@
 """C38 -- cqlengine routing keys equal the partition key Cassandra hashes."""
 import json
 import os
+import re
 import struct
 
 from hypothesis import strategies as st
@@ -18,13 +19,18 @@ SERIAL = os.environ.get("VERIF_TIER") == "quick"
 TECHNIQUE = ("property-based testing (Hypothesis): generated models and operations run against a fake session registered as cqlengine "
              "connection; the routing_key/keyspace of the SimpleStatement handed to Session.execute is compared with the independent "
              "encoding (spec.values.encode, composite framing u16 length | bytes | 0) of the partition key values that Cassandra reads "
-             "from the very statement text (independent CQL parser + literal conversion), and with the values requested")
+             "from the very statement text (independent CQL parser + literal conversion), and with the values requested; the ORDER of the "
+             "components is the one of the PRIMARY KEY ((...)) clause of the CREATE TABLE statement cqlengine issues for the model "
+             "(management._get_create_table), which is what the server hashes, also when the key columns are inherited")
 RULE = ("One case = a model with 1-3 partition key columns drawn from every key-capable cqlengine column (Text, Ascii, Integer, TinyInt, "
         "SmallInt, BigInt, VarInt, UUID, TimeUUID, DateTime, Date, Time, Boolean, Inet, Blob, Decimal, Float, Double), 0-2 clustering "
         "columns, optional db_field names, and 1-4 operations with boundary-weighted key values (generators of C36): create, get, "
         "queryset update / delete with equality on the whole key, save / delete of a loaded instance (statements that fix the partition "
         "key), and select/update with IN on a key column, a partial composite key, token() or a model with __compute_routing_key__ = "
-        "False (statements that do not).  Non-trivial: a composite partition key, or a key column whose to_database form differs from "
+        "False (statements that do not).  The columns are declared in one class (layout flat), spread over a chain of abstract "
+        "bases A <- B <- model (chain), or over two abstract mixins and the model itself (mixin) where the mixins are defined in either "
+        "order and listed in the bases tuple in either order, so that the order of the inherited partition key components in the table "
+        "is independent of the order in which the column objects were instantiated (Column.position).  Non-trivial: a composite partition key, or a key column whose to_database form differs from "
         "the Python value (DateTime, Date, Time, Decimal, Blob, aware datetimes).")
 ASSUMPTIONS = [
     "spec.values.encode stands for Cassandra's serializers; the composite partition key framing is the one of CompositeType (u16 length, bytes, 0 byte per component)",
@@ -32,6 +38,9 @@ ASSUMPTIONS = [
     "(spec.cqlparse / spec.cqlterm); whether that text carries the requested value is the business of C36/C37 and is only cross-checked "
     "here for types without a known C36 conversion defect (everything except DateTime)",
     "token equality between routing key and row follows from C08 (murmur3) and is not re-checked",
+    "the partition key order of the table is the one of the CREATE TABLE text produced by cqlengine.management for the model (the table a "
+    "cqlengine user has); a clustering / data column is only placed in an abstract base that also declares a partition key column (an abstract "
+    "base with primary keys but no partition key promotes its first primary key, which is outside this property)",
     "batches carry no routing key in cqlengine (BatchQuery sends plain text) and are not exercised",
 ]
 
@@ -63,6 +72,12 @@ def s_case():
         return st.fixed_dictionaries({
             "pk": st.just(pk), "ck": st.just(ck), "pk_db": st.lists(st.sampled_from([False, False, True]), min_size=3, max_size=3),
             "compute": st.sampled_from([True] * 9 + [False]), "pv": st.sampled_from([3, 4, 4, 5]),
+            "layout": st.fixed_dictionaries({
+                "mode": st.sampled_from(["flat", "flat", "chain", "mixin", "mixin", "mixin"]),
+                "pk_owner": st.lists(st.sampled_from([0, 1, 2, 1, 2]), min_size=3, max_size=3),       # 0 = the model itself, 1 = base A, 2 = base B
+                "ck_owner": st.lists(st.integers(0, 2), min_size=2, max_size=2),
+                "data_owner": st.lists(st.integers(0, 2), min_size=2, max_size=2),
+                "define_b_first": st.booleans(), "list_b_first": st.booleans()}),
             "ops": st.lists(op, min_size=1, max_size=4)})
     ck_kinds = ["Integer", "Text", "DateTime", "UUID", "Time"]
     return st.tuples(st.lists(st.sampled_from(_KEY_KINDS), min_size=1, max_size=3), st.lists(st.sampled_from(ck_kinds), max_size=2)).flatmap(
@@ -113,29 +128,68 @@ def composite(parts):
 
 
 def interpret(case, ctx):
-    from cassandra.cqlengine import functions
+    from cassandra.cqlengine import functions, management
     from cassandra.cqlengine.query import DoesNotExist, QueryException
     from checks import _cqle
     pk_kinds, ck_kinds = case["pk"], case["ck"]
-    cols = []       # (attr, db, role, kind, tree)
-    defs = []
+    layout = case.get("layout") or {"mode": "flat"}
+    mode = layout["mode"]
+    specs = []      # (attr, db, role, kind, tree, owner, column kwargs)
     for i, k in enumerate(pk_kinds):
         attr = "p%d" % i
         db = "dbp%d" % i if case["pk_db"][i] else attr
-        cols.append((attr, db, "pk", k, _cqle.tree_of({"c": k})))
-        defs.append((attr, _cqle.make_column({"c": k}, partition_key=True, db_field=db if db != attr else None)))
+        owner = 0 if mode == "flat" else layout["pk_owner"][i]
+        specs.append((attr, db, "pk", k, _cqle.tree_of({"c": k}), owner, dict(partition_key=True, db_field=db if db != attr else None)))
+    pk_owners = set(sp[5] for sp in specs)
     for i, k in enumerate(ck_kinds):
         attr = "c%d" % i
-        cols.append((attr, attr, "ck", k, _cqle.tree_of({"c": k})))
-        defs.append((attr, _cqle.make_column({"c": k}, primary_key=True)))
-    defs.append(("v", _cqle.make_column({"c": "Integer"})))
-    defs.append(("w", _cqle.make_column({"c": "Text"})))
-    pks = [c for c in cols if c[2] == "pk"]
-    cks = [c for c in cols if c[2] == "ck"]
+        owner = 0 if mode == "flat" else layout["ck_owner"][i]
+        if owner not in pk_owners:
+            owner = 0       # see ASSUMPTIONS: no primary key column in a base without a partition key column
+        specs.append((attr, attr, "ck", k, _cqle.tree_of({"c": k}), owner, dict(primary_key=True)))
+    for i, (attr, k) in enumerate((("v", "Integer"), ("w", "Text"))):
+        owner = 0 if mode == "flat" else layout["data_owner"][i]
+        specs.append((attr, attr, "data", k, None, owner, {}))
+    pks = [sp[:5] for sp in specs if sp[2] == "pk"]
+    cks = [sp[:5] for sp in specs if sp[2] == "ck"]
     for k in pk_kinds:
         ctx.label("pk:" + k)
     ctx.label("pk-columns:%d" % len(pks))
+    ctx.label("layout:" + mode)
+    if len(set(o for o in pk_owners if o)) == 2:
+        ctx.label("layout:%s-pk-in-both-bases" % mode)
+    if mode == "mixin" and layout["define_b_first"] != layout["list_b_first"]:
+        ctx.label("layout:mixins-listed-against-definition-order")
     ctx.nontrivial(len(pks) > 1 or any(k in ("DateTime", "Date", "Time", "Decimal", "Blob") for k in pk_kinds))
+
+    def body_of(owner):
+        # column objects are instantiated when "their" class body runs, in textual order: Column.position follows class definition order
+        return [(sp[0], _cqle.make_column({"c": sp[3]}, **sp[6])) for sp in specs if sp[5] == owner]
+
+    def build_model(attrs):
+        from cassandra.cqlengine import models
+        if mode == "flat":
+            return _cqle.make_model("M38", body_of(0), **attrs)
+        def abstract(name, bases, owner):
+            body = {"__abstract__": True}
+            body.update(body_of(owner))
+            return models.ModelMetaClass(name, bases, body)
+        if mode == "chain":
+            a = abstract("A38", (models.Model,), 1)
+            b = abstract("B38", (a,), 2)
+            bases = (b,)
+        else:
+            if layout["define_b_first"]:
+                b = abstract("B38", (models.Model,), 2)
+                a = abstract("A38", (models.Model,), 1)
+            else:
+                a = abstract("A38", (models.Model,), 1)
+                b = abstract("B38", (models.Model,), 2)
+            bases = (b, a) if layout["list_b_first"] else (a, b)
+        body = {"__keyspace__": "ks", "__table_name__": "t", "__connection__": _cqle.CONNECTION, "__abstract__": False}
+        body.update(attrs)
+        body.update(body_of(0))
+        return models.ModelMetaClass("M38", bases, body)
 
     state = {"row": None}
 
@@ -146,8 +200,28 @@ def interpret(case, ctx):
 
     with _cqle.connected(backend, protocol_version=case["pv"]) as session:
         attrs = {} if case["compute"] else {"__compute_routing_key__": False}
-        M = _cqle.make_model("M38", defs, **attrs)
+        with ctx.driver(["C38.model", mode]):
+            M = build_model(attrs)
+            ddl = management._get_create_table(M)
+        if ctx._failures:
+            return
+        # ---- the table's partition key order: the PRIMARY KEY ((...)) clause of the table cqlengine creates for this model
+        m = re.search(r'PRIMARY KEY \(\(([^)]*)\)([^)]*)\)', ddl)
+        table_pk = [n.strip().strip('"') for n in m.group(1).split(",")] if m else []
+        table_ck = [n.strip().strip('"') for n in m.group(2).split(",") if n.strip()] if m else []
+        if sorted(table_pk) != sorted(c[1] for c in pks) or sorted(table_ck) != sorted(c[1] for c in cks):
+            ctx.fail(["C38.model", "primary-key-columns", mode], "declared partition key %r clustering %r, table %r" % (
+                [c[1] for c in pks], [c[1] for c in cks], ddl))
+            return
+        order = [[c[1] for c in pks].index(n) for n in table_pk]
+        ck_order = [[c[1] for c in cks].index(n) for n in table_ck]
+        pks = [pks[i] for i in order]
+        cks = [cks[i] for i in ck_order]
+        positions = [getattr(M._columns[c[0]], "position", 0) for c in pks]         # label only
+        if positions != sorted(positions):
+            ctx.label("table-key-order!=column-instantiation-order")
         for op in case["ops"]:
+            op = dict(op, pk=[op["pk"][i] for i in order], pk2=[op["pk2"][i] for i in order], ck=[op["ck"][i] for i in ck_order])
             kind = op["op"]
             ctx.label("op:" + kind)
             pv = [_cqle.build_value({"c": c[3]}, d) for c, d in zip(pks, op["pk"])]
